@@ -232,6 +232,23 @@ func refJSON[T any](data string) []T {
 type fakeRT struct {
 	status int
 	body   string
+	open   bool // the server keeps the connection open after the body text: a read past it never returns
+}
+
+// stayOpen delivers data and then blocks for ever (no EOF): a response whose sender has said all it has to say so far.
+type stayOpen struct {
+	data []byte
+	gate chan struct{}
+}
+
+func (r *stayOpen) Read(p []byte) (int, error) {
+	if len(r.data) > 0 {
+		k := copy(p, r.data)
+		r.data = r.data[k:]
+		return k, nil
+	}
+	mc.Recv((<-chan struct{})(r.gate)) // never sent to, never closed
+	return 0, io.EOF
 }
 
 // RoundTrip answers with the canned status and body. Time is not modelled by counting seconds: if the request carries a
@@ -240,6 +257,9 @@ type fakeRT struct {
 // out read does. A client without a time limit gets the whole body.
 func (f *fakeRT) RoundTrip(req *http.Request) (*http.Response, error) {
 	var body io.Reader = strings.NewReader(f.body)
+	if f.open {
+		body = &stayOpen{data: []byte(f.body), gate: make(chan struct{})}
+	}
 	_, hasDeadline := req.Context().Deadline()
 	if hasDeadline || req.Cancel != nil { //nolint:staticcheck // the deprecated field is exactly what http.Client.Timeout uses with custom transports
 		body = &failAfter{data: []byte(f.body), n: len(f.body) / 2, err: context.DeadlineExceeded}
@@ -414,6 +434,61 @@ func readerFailureUnit(c *core.Ctx) {
 	}
 }
 
+// openConnectionUnit: what a reader owes its caller does not wait for the end of the transmission - a stream is closed as
+// soon as the text received so far is complete or malformed, a non-success status is reported as soon as it is known -
+// even if the server keeps the connection open and never sends an end of file.
+func openConnectionUnit(c *core.Ctx) {
+	rec := `{"date":"2021-03-01T00:00:00.000Z","open":1,"high":2,"low":0.5,"close":1.5,"volume":10}`
+	cases := []struct {
+		name   string
+		status int
+		body   string
+		want   int
+	}{
+		{"a complete array", 200, "[" + rec + "," + rec + "]", 2},
+		{"an empty array", 200, "[]", 0},
+		// (a well-formed value of the wrong type, "[rec, 5", is not in this list: the reader skips to the next token, which on an
+		// open connection has not been sent yet - waiting for it is what any incomplete body requires)
+		{"one record and then a syntax error", 200, "[" + rec + ",}", 1},
+		{"a body that is no array", 200, `{"detail":"x"} `, 0},
+		{"an error status with a body", 500, "internal error", 0},
+		{"an error status without a body", 404, "", 0},
+	}
+	for _, cs := range cases {
+		var snaps []*asset.Snapshot
+		var gerr, lerr error
+		res := mc.Run(func() {
+			http.DefaultTransport = &fakeRT{status: cs.status, body: cs.body, open: true}
+			repo := asset.NewTiingoRepository("key")
+			repo.Logger = quietLogger
+			ch, err := repo.GetSince("A", day(0))
+			gerr = err
+			if err == nil {
+				snaps = drainSnaps(ch)
+			}
+			if cs.status != 200 {
+				_, lerr = repo.LastDate("A")
+			}
+		}, mc.Options{})
+		c.Executions++
+		c.States++
+		c.Evaluations++
+		c.Nontrivial++
+		c.Transitions += int64(res.Events)
+		info := map[string]any{"http_status": cs.status, "body": cs.body, "connection": "kept open, no end of file"}
+		switch {
+		case len(res.Panics) > 0:
+			c.Fail("", fmt.Sprintf("TiingoRepository on %s (status %d, connection kept open): panic %s", cs.name, cs.status, res.Panics[0].Value), info)
+		case res.Deadlock:
+			c.Fail("", fmt.Sprintf("TiingoRepository on %s (status %d) with the connection kept open: the call or the stream never finishes (%s)", cs.name, cs.status, blockedDesc(res)), info)
+		case cs.status != 200 && (gerr == nil || lerr == nil):
+			c.Fail("", fmt.Sprintf("TiingoRepository reports success for HTTP status %d (connection kept open)", cs.status), info)
+		case cs.status == 200 && (gerr != nil || len(snaps) != cs.want):
+			c.Fail("", fmt.Sprintf("TiingoRepository.GetSince on %s (connection kept open): %d snapshots, error %v; expected %d snapshots", cs.name, len(snaps), gerr, cs.want), info)
+		}
+	}
+}
+
 func filesUnit(c *core.Ctx) {
 	dir := mustTempDir("c19")
 	defer os.RemoveAll(dir)
@@ -491,6 +566,7 @@ func init() {
 			}
 			us = append(us, core.Unit{Key: "files", Cost: 1, Run: filesUnit})
 			us = append(us, core.Unit{Key: "reader-failures", Cost: 2, Run: readerFailureUnit})
+			us = append(us, core.Unit{Key: "open-connection", Cost: 1, Run: openConnectionUnit})
 			return us
 		},
 	})
